@@ -35,6 +35,12 @@ type c15Channel struct {
 
 	attempted atomic.Int64 // deliveries handed to (or attempted on) handlers
 	ownLost   atomic.Bool  // a message sent by a state found no receiver
+	sent      []c15Sent    // what the member's states broadcast, with the context they (re)transmit under
+}
+
+type c15Sent struct {
+	id  int
+	ctx context.Context
 }
 
 type c15Handler struct {
@@ -55,6 +61,9 @@ func (c *c15Channel) Name() string { return "c15" }
 // receiver is registered is not delivered later.
 func (c *c15Channel) Send(ctx context.Context, m net.TaggedMarshaler, s ...net.RetransmissionStrategy) error {
 	own := m.(*c15Own)
+	c.mu.Lock()
+	c.sent = append(c.sent, c15Sent{own.id, ctx})
+	c.mu.Unlock()
 	if c.deliver(&c15Msg{typ: own.Type(), id: own.id}) == 0 {
 		c.ownLost.Store(true)
 	}
@@ -313,10 +322,9 @@ func (s *c15State) MemberIndex() group.MemberIndex { return 1 }
 func (s *c15State) Initiate(ctx context.Context) error {
 	c := s.c
 	c.event(c15Event{kind: "init-start", state: s.idx})
-	if s.idx == 0 {
-		// the first thing a member does: broadcast (looped back to itself)
-		_ = c.ch.Send(ctx, &c15Own{id: c15OwnID})
-	}
+	// the first thing a state does: broadcast its message (looped back to the
+	// member itself; retransmitted by the channel for as long as ctx lives)
+	_ = c.ch.Send(ctx, &c15Own{id: c15OwnID + s.idx})
 	close(c.initStarted[s.idx])
 	select {
 	case <-c.gate[s.idx]:
@@ -504,17 +512,17 @@ func c15Run(plan *c15Plan) (*c15Chain, *c15Outcome) {
 		if !waitFor(fmt.Sprintf("Initiate of state %d", p), c.initStarted[p]) {
 			break
 		}
-		if p == 0 {
-			// the initial state broadcast its own message when its initiation
-			// started: sent after Execute was called, so it must be received
+		{
+			// the state broadcast its own message when its initiation started:
+			// sent after Execute was called, so it must be received
 			if ch.ownLost.Load() {
-				out.violation = "the message the initial state sent from its Initiate found no registered receiver: the machine was not yet listening (lost)"
+				out.violation = fmt.Sprintf("the message state %d sent from its Initiate found no registered receiver: the machine was not listening (lost)", p)
 				break
 			}
-			out.delivered = append(out.delivered, c15Delivery{forState: n + 7, id: c15OwnID})
-			out.phaseOf = append(out.phaseOf, 0)
+			out.delivered = append(out.delivered, c15Delivery{forState: n + 7, id: c15OwnID + p})
+			out.phaseOf = append(out.phaseOf, p)
 			out.beforeInit = append(out.beforeInit, true)
-			if !waitFor("Receive of the initial state's own message", c.acks) {
+			if !waitFor(fmt.Sprintf("Receive of state %d's own message", p), c.acks) {
 				break
 			}
 		}
@@ -669,6 +677,21 @@ func c15Run(plan *c15Plan) (*c15Chain, *c15Outcome) {
 	}
 	if !finished && out.inconclusive == "" && out.violation == "" {
 		awaitEnd(n - 1)
+	}
+	// A member that is done keeps serving the slower ones: what its states
+	// broadcast is retransmitted under the context they were given, which
+	// has to live as long as the CALLER's context - not just until Execute
+	// returns (Requirement 1 of AsyncState). A late member picks the
+	// messages up from those retransmissions only.
+	if finished && out.violation == "" && ctx.Err() == nil {
+		ch.mu.Lock()
+		for _, snt := range ch.sent {
+			if snt.ctx.Err() != nil {
+				out.violation = fmt.Sprintf("Execute returned (%v) and the caller's context is still alive, but the context under which message m%d is retransmitted is already cancelled: a member that is late can no longer obtain it", out.err, snt.id)
+				break
+			}
+		}
+		ch.mu.Unlock()
 	}
 	return c, out
 }
